@@ -148,7 +148,8 @@ Inductive leaf :=
 | LZero                                                 (* ZeroOperator (domain = range) *)
 | LConst (c : val)                                      (* ConstantOperator *)
 | LMult (m : sval)                                      (* MultiplyOperator *)
-| LMat (m : list (list T)).                             (* MatrixOperator (dense, 1-d range; may be non-square inside a composition) *)
+| LMat (m : list (list T))                              (* MatrixOperator (dense, 1-d range; may be non-square inside a composition) *)
+| LFun (F : list (list T) -> list (list T)).            (* any operator whose _call has no `out` (e.g. NuclearNorm proximal): F opaque *)
 
 (* x - g  (LinearSpaceElement.__sub__): tmp = space.element(); lincomb(1, x, -1, g, out=tmp) *)
 Definition sub_param (x : ref) (g : val) (h : heap) : ref * heap :=
@@ -353,6 +354,10 @@ Definition leaf_ip (l : leaf) (x out : ref) (h : heap) : heap :=
       let h2 := st1 (mult_val m) x t h1 in
       st1 (fun a => a) t out h2
   | LMat m => st1 (map (mvec m)) x out h                                  (* self.matrix.dot(x, out=out_arr) *)
+  | LFun F =>                                  (* _default_call_in_place: out.assign(range.element(op._call_out_of_place(x))) *)
+      let '(t, h1) := fresh (length x) h in
+      let h2 := st1 F x t h1 in
+      st1 (fun a => a) t out h2
   end.
 
 (* out-of-place evaluation of a leaf.  The proximal classes have a mandatory
@@ -367,6 +372,7 @@ Definition leaf_oop (l : leaf) (x : ref) (h : heap) : ref * heap :=
   | LConst c => (t, st0 c t h1)                                           (* range.element(copy(constant)) *)
   | LMult m => (t, st1 (mult_val m) x t h1)                               (* x * self.multiplicand *)
   | LMat m => (t, st1 (map (mvec m)) x t h1)                              (* np.tensordot(self.matrix, x, ...) *)
+  | LFun F => (t, st1 F x t h1)                                           (* self._call(x) *)
   | _ => (t, leaf_ip l x t h1)
   end.
 
@@ -452,6 +458,7 @@ Definition leaf_pure (l : leaf) (v : val) : val :=
   | LConst c => c
   | LMult m => mult_val m v
   | LMat m => map (mvec m) v
+  | LFun F => F v
   end.
 
 (* ----------------------------------------- operator arithmetic (operator.py) *)
